@@ -218,13 +218,15 @@ def run_case(chk, stream, case):
         model = d.ask("pk ev " + mev)
         mouts, mstate = [x.strip() for x in model.split("|")]
         mo = sorted(_norm_upload(x) for x in mouts.split(",") if x)
-        if sorted(outs) != mo or state != mstate:
+        diverged = sorted(outs) != mo or state != mstate
+        if diverged:
             fails.append(corr("history:" + kind, "event #%d %s of %s: impl=%s | %s   model=%s | %s" % (ei, mev, case["events"], sorted(outs), state, mo, mstate)))
-            break
-        # ---- oracle on the real state
+        # ---- oracle on the real state (also when the model and the code have just parted: this is the search for a failing input)
         what = _oracle(w, rows)
         if what:
             fails.append(oracle(what[0], "history %s: after event #%d (%s): %s" % (case["events"][:ei + 1], ei, mev, what[1])))
+            break
+        if diverged:
             break
         if kind == "authed" and mev.endswith("1"):
             # an authenticated passive login must offer exactly the keys whose upload was never confirmed
